@@ -362,6 +362,9 @@ class GentooVersion(Version):
             return NotImplemented
         return gentoo.vercmp(self.value, other.value) == 0
 
+    def __hash__(self):
+        return hash(gentoo.canonical_key(self.value))
+
     def __lt__(self, other):
         if not isinstance(other, self.__class__):
             return NotImplemented
